@@ -18,13 +18,36 @@ pub fn anthem_bin() -> std::path::PathBuf {
     std::env::current_exe().unwrap().parent().unwrap().join("anthem")
 }
 
-pub fn run_anthem(args: &[&str], stdin: Option<&str>) -> Result<(i32, String, String), String> {
+/// exit status used for a run that was killed because it did not end in time
+pub const TIMED_OUT: i32 = -99;
+
+pub fn run_anthem(args: &[&str], stdin: Option<&str>) -> Result<(i32, String, String), String> { run_anthem_within(args, stdin, 120) }
+
+/// runs the binary; a run that has not ended after `secs` seconds is killed and reported with the status TIMED_OUT
+pub fn run_anthem_within(args: &[&str], stdin: Option<&str>, secs: u64) -> Result<(i32, String, String), String> {
+    use std::io::Read as _;
     let mut cmd = Command::new(anthem_bin());
     cmd.args(args).stdout(Stdio::piped()).stderr(Stdio::piped()).stdin(if stdin.is_some() { Stdio::piped() } else { Stdio::null() });
     let mut child = cmd.spawn().map_err(|e| format!("cannot start {}: {e}", anthem_bin().display()))?;
-    if let Some(s) = stdin { child.stdin.take().unwrap().write_all(s.as_bytes()).map_err(|e| e.to_string())?; }
-    let out = child.wait_with_output().map_err(|e| e.to_string())?;
-    Ok((out.status.code().unwrap_or(-1), String::from_utf8_lossy(&out.stdout).into_owned(), String::from_utf8_lossy(&out.stderr).into_owned()))
+    let (mut so, mut se) = (child.stdout.take().unwrap(), child.stderr.take().unwrap());
+    let si = child.stdin.take();
+    let text = stdin.map(|s| s.to_string());
+    let writer = std::thread::spawn(move || { if let (Some(mut si), Some(t)) = (si, text) { let _ = si.write_all(t.as_bytes()); } });
+    let ro = std::thread::spawn(move || { let mut b = Vec::new(); let _ = so.read_to_end(&mut b); b });
+    let re = std::thread::spawn(move || { let mut b = Vec::new(); let _ = se.read_to_end(&mut b); b });
+    let t0 = std::time::Instant::now();
+    let status = loop {
+        match child.try_wait().map_err(|e| e.to_string())? {
+            Some(st) => break Some(st),
+            None => { if t0.elapsed().as_secs() >= secs { let _ = child.kill(); let _ = child.wait(); break None; } std::thread::sleep(std::time::Duration::from_millis(3)); }
+        }
+    };
+    let _ = writer.join();
+    let (out, err) = (ro.join().unwrap_or_default(), re.join().unwrap_or_default());
+    match status {
+        Some(st) => Ok((st.code().unwrap_or(-1), String::from_utf8_lossy(&out).into_owned(), String::from_utf8_lossy(&err).into_owned())),
+        None => Ok((TIMED_OUT, String::from_utf8_lossy(&out).into_owned(), format!("killed: no result after {secs} s"))),
+    }
 }
 
 // ---------------------------------------------------------------------------------------------------------------------
@@ -248,6 +271,14 @@ pub fn corpus(deep: bool) -> Vec<String> {
               "exists X Y$s N$i (X = Y$s and X = N$i and p(X))", "exists N$i Y$s (N$i = 1 and Y$s = a and q(N$i, Y$s))", "exists Y$s (Y$s = X and Y$s = Z and p(Y$s))"] {
         out.push(t.to_string());
     }
+    // a quantifier next to a formula in which some, all or none of its variables occur free (scope extension must not capture)
+    for t in ["p(X) and exists X Y (q(X, Y))", "exists X Y (q(X, Y)) and p(X)", "exists X Y (q(X, Y)) and p(Y)", "p(Y) or forall X Y (q(X, Y))", "forall X Y (q(X, Y) -> p(X)) and q(Y, Y)", "q(X, Z) and exists Z Y X (q(X, Y) and p(Z))",
+              "exists X$i Y (q(X$i, Y)) and p(Y)", "p(X$i) or exists Y X$i (q(X$i, Y))", "exists X Y (q(X, Y)) and exists Y Z (q(Y, Z) and p(X))", "exists X (p(X, Y)) and exists Y (q(X, Y))", "forall X (p(X, Y)) or forall Y (q(X, Y))",
+              "q(X, Y) and exists X Y (q(X, Y))", "exists X Y (q(X, Y)) or q(X, Y)", "p(Z) and exists X Y (q(X, Y))", "exists X (p(X)) and exists X (q(X))", "exists X (p(X)) and forall X (q(X) -> p(X))", "forall X (p(X)) and forall X (q(X))",
+              "exists X (p(X)) or exists X (q(X))", "forall X (p(X)) or forall Y (q(Y))", "exists X Y (q(X, Y)) and forall Y (p(Y) -> q(X, Y))", "(exists X (p(X)) and q(X)) and exists X (q(X))", "not (p(X) and exists X Y (q(X, Y)))",
+              "exists Y (q(X, Y)) -> exists X (p(X))", "p(X) -> forall X Y (q(X, Y))", "forall X Y (q(X, Y)) <- p(Y)", "exists X$i Y$i (q(X$i, Y$i)) and p(X)", "exists X Y$i (q(X, Y$i)) and p(Y)"] {
+        out.push(t.to_string());
+    }
     // comparison chains next to plain equations that share a term with them (a chain `V = t < u` is not a definition of V)
     for t in ["exists X$i Y$i (X$i = Z and Y$i = Z < 3 and p(Y$i))", "exists X Y (X = Z and Y = Z != 1 and q(X, Y))", "exists Y$i (Y$i = Z < 1 and p(Y$i))", "forall X$i Y$i (X$i = Z and Y$i = Z <= 0 -> q(X$i, Y$i))",
               "exists X (X = Y = 1 and p(X))", "exists X$i Y$i (X$i = N$i + 1 and Y$i = N$i + 1 > 1 and q(X$i, Y$i))", "exists X Y (Y = Z < a and X = Z and q(Y, X))", "exists X Y (X = Z and Z = Y < 1 and q(X, Y))",
@@ -343,6 +374,18 @@ pub fn check(deep: bool, stats: &mut SimpStats, fails: &mut Vec<Failure>) {
             stats.runs += 1;
             let what = format!("anthem simplify --portfolio {portfolio} --strategy {strategy}");
             let (rc, out, err) = match run_anthem(&["simplify", "--portfolio", portfolio, "--strategy", strategy], Some(&text)) { Ok(x) => x, Err(e) => { fails.push(Failure { property: "harness", input: what, detail: e }); return; } };
+            if rc == TIMED_OUT {
+                // termination (C18): which formulas are the ones that never come back? each on its own, with a short limit
+                let hung: Vec<Option<String>> = crate::par_map(&(0..inputs.len()).collect::<Vec<_>>(), |i| {
+                    match run_anthem_within(&["simplify", "--portfolio", portfolio, "--strategy", strategy], Some(&format!("{}.\n", inputs[*i].0)), 8) { Ok((r, _, _)) if r == TIMED_OUT => Some(inputs[*i].0.clone()), _ => None }
+                });
+                let hung: Vec<String> = hung.into_iter().flatten().collect();
+                if hung.is_empty() { fails.push(Failure { property: "C18", input: what.clone(), detail: "no result for the corpus after 120 s, although each formula on its own is simplified within 8 s".into() }); }
+                for h in hung.iter().take(6) {
+                    for prop in ["C18", "C07"] { fails.push(Failure { property: prop, input: format!("{what}: {h}"), detail: "the simplification of this formula does not end (no result after 8 s; the process was killed)".into() }); }
+                }
+                continue;
+            }
             if rc != 0 {
                 fails.push(Failure { property: "C16", input: what.clone(), detail: format!("exit status {rc} on the corpus: {}", err.chars().take(600).collect::<String>()) });
                 continue;
